@@ -44,6 +44,18 @@ def textNotifFailing (p q : State) (evs : List Ev) : List String :=
             e.actors.contains x).length == subscriptions p m k) then []
    else ["text-effective-change-not-delivered-once-per-subscription"])
 
+/-- the automatic leave on exit: `a` publishes `Stopping` and drops its own monitor entries BEFORE it is taken out
+of its groups, so at the instant of those changes `a` itself monitors nothing -/
+def withoutMonitor (st : State) (a : Nat) : State :=
+  { st with map := st.map.map (fun p => (p.1, ⟨p.2.members, del a p.2.listeners⟩)),
+            world := st.world.map (fun p => (p.1, del a p.2)) }
+
+/-- the clause for ONE un-raced exit of `a`: one `Leave [a]` per group `a` was still in, to every OTHER actor
+monitoring that group, its scope or all scopes, and to no one else -/
+def textExitFailing (p q : State) (a : Nat) (evs : List Ev) : List String :=
+  textNotifFailing (withoutMonitor p a) q evs ++
+  (if evs.all (fun e => e.join == false && e.actors == [a]) then [] else ["text-exit-event-is-not-leave-of-the-exiting-actor"])
+
 /-- the STRICT reading ("monitors are told of effective changes only, the payload is the delta"): an event all of
 whose actors did not change sides, or — for an effective one — an actor in the payload that did not change sides.
 NOT wired into the driver: the implementation notifies ineffective calls by design (verbatim payload); see
